@@ -324,6 +324,10 @@ class ConcRunner {
       else if (n == "flush") ldb_test_compact_memtable(sh.db);
       else if (n == "crange") ldb_test_compact_range(sh.db, op.args.size() ? atoi(op.args[0].c_str()) : 0, nullptr, nullptr);
       else if (n == "quiesce") sched_quiesce();
+      else if (n == "tables") {
+        long cnt = op.args.size() ? atol(op.args[0].c_str()) : 80;
+        for (long i = 0; i < cnt && i < 400; i++) { std::string key = sfmt("m%04ld", i), v = sfmt("tbl%04ld", i); ldb_slice_t ks = slice_of(key), vs = slice_of(v); if (ldb_put(sh.db, &ks, &vs, nullptr) != LDB_OK) VF_FAIL("C08", "setup put failed"); setup_state[key] = v; ldb_test_compact_memtable(sh.db); }
+      }
       else if (n == "reopen") {
         // close and open again, possibly with other options (e.g. a smaller write buffer, so that recovery of one large log
         // leaves many level-0 tables behind and the first writers meet the level-0 stop condition at once)
